@@ -28,18 +28,38 @@ Proof. exact activate_sequence. Qed.
 Print Assumptions C02_group_order.
 
 (* while the first five groups run the stored state is untouched (callbacks read the source as
-   current state); after the assignment it is the target (run-to-completion) *)
+   current state); after the assignment it is the target (run-to-completion; [no_writes]: no callback
+   assigns the state itself through the low-level API `current_state_value = ...`) *)
 Theorem C02_state_seen_before_assignment :
-  forall beh nested rm, (forall td c, Rres grows c (nested td c)) ->
+  forall beh nested rm, (forall td c, Rres grows c (nested td c)) -> no_writes beh ->
   forall t x c, Rres grows c (activate_pre beh nested rm t x c).
 Proof. exact activate_pre_grows. Qed.
 Print Assumptions C02_state_seen_before_assignment.
 
 Theorem C02_state_seen_after_assignment :
-  forall beh nested rm, (forall td c, Rres grows c (nested td c)) ->
+  forall beh nested rm, (forall td c, Rres grows c (nested td c)) -> no_writes beh ->
   forall t x c, Rres grows (set_field c (Some (a_tgt t))) (activate_post beh nested rm t x c).
 Proof. exact activate_post_grows. Qed.
 Print Assumptions C02_state_seen_after_assignment.
+
+(* with callbacks that do assign the state themselves ([AWrite], any behaviour): the engine's own
+   assignment after `on` is unconditional, so the second half - enter(target) and after, or after alone
+   for an internal transition - starts with the target stored, whatever the first half left there *)
+Theorem C02_assignment_overrides_what_callbacks_stored :
+  forall beh nested rm t x c f,
+    activate_post beh nested rm t x (set_field c f) = activate_post beh nested rm t x c.
+Proof. exact activate_post_overrides. Qed.
+Print Assumptions C02_assignment_overrides_what_callbacks_stored.
+
+Theorem C02_second_half_starts_from_target :
+  forall beh nested rm t x c,
+    activate_post beh nested rm t x c =
+      (let c0 := set_field c (Some (a_tgt t)) in
+       let x0 := with_state x (Some (a_tgt t)) in
+       do (c1, _n) <- (if a_internal t then Ok c0 [] else call_group beh nested rm GEnter x0 (a_enter t) c0);
+       do (c2, _a) <- call_group beh nested rm GAfter x0 (a_after t) c1; Ok c2 tt).
+Proof. exact activate_post_starts_from_target. Qed.
+Print Assumptions C02_second_half_starts_from_target.
 
 (* a rejected candidate runs its validators and conditions only - none of its actions *)
 Theorem C02_rejected_runs_no_actions :
@@ -85,12 +105,12 @@ Print Assumptions C02_each_admitted_callback_exactly_once.
 (* what callbacks observe: every callback of the first half is logged with the stored state and engine
    depth the half started with (the source), every callback of the second half with the target *)
 Theorem C02_callbacks_of_first_half_see_source :
-  forall beh rm d f t x c, Rres (sees d f) c (activate_pre beh flat_nested rm t x c).
+  forall beh rm d f, no_writes beh -> forall t x c, Rres (sees d f) c (activate_pre beh flat_nested rm t x c).
 Proof. exact sees_activate_pre. Qed.
 Print Assumptions C02_callbacks_of_first_half_see_source.
 
 Theorem C02_callbacks_of_second_half_see_target :
-  forall beh rm d f t x c,
+  forall beh rm d f, no_writes beh -> forall t x c,
     Rres (sees d f) c
       (do (c1, _n) <- (if a_internal t then Ok c [] else call_group beh flat_nested rm GEnter x (a_enter t) c);
        do (c2, _a) <- call_group beh flat_nested rm GAfter x (a_after t) c1; Ok c2 tt).
@@ -131,3 +151,21 @@ Example C02_nonvacuous :
   seen (send ex_beh ex_rm 5 {| td_ev := Some 0; td_tag := 0 |} (init_cfg (Some 0)))
   = [(1, Some 0); (2, Some 0); (3, Some 0); (4, Some 1); (5, Some 1)].
 Proof. vm_compute. reflexivity. Qed.
+
+(* non-vacuity with a writing callback: an internal transition 0 -> 0 whose `on` callback stores state 1
+   through the low-level API; the `after` callback still sees the target 0 and the machine ends in 0 *)
+Definition wr_rm : rmachine :=
+  {| rm_states := [ {| rs_enter := []; rs_exit := [] |}; {| rs_enter := []; rs_exit := [] |} ];
+     rm_trans := [ {| rt_src := 0; rt_tgt := 0; rt_events := [0]; rt_internal := true; rt_validators := [];
+                      rt_cond := []; rt_before := []; rt_on := [w 3]; rt_after := [w 5] |} ];
+     rm_start := 0; rm_rtc := true; rm_allow := false; rm_async := false |}.
+Definition wr_beh : behaviour := fun cb _ =>
+  match cb_name cb with
+  | NUser 3 => {| acts := [AWrite 1]; ret := VNone |}
+  | _ => {| acts := []; ret := VNone |}
+  end.
+Definition final_field (r : res pyres) : option nat := match r with Ok c _ => field c | _ => None end.
+Example C02_nonvacuous_write :
+  let r := send wr_beh wr_rm 5 {| td_ev := Some 0; td_tag := 0 |} (init_cfg (Some 0)) in
+  seen r = [(3, Some 0); (5, Some 0)] /\ final_field r = Some 0.
+Proof. vm_compute. split; reflexivity. Qed.
